@@ -52,6 +52,8 @@ CHECKS.update({
             "4/C18", "Held on generated programs (one open known finding: rounding-level gradient differences at tensors with >= 3 consumers).", "deterministic re-execution of the captured GraphModule"),
     "C19": ("differential monitor on tracked graphs: pruning helpers vs an independent networkx model of the documented removal sets (three-valued), lint + dangling-edge scan, reachability of consumers from producers, before/after snapshot of the input graph",
             "4/C19", "Held on tracked graphs of generated programs x 3 helpers x 3 tolerances x random target sets.", "node.meta written by track_scales as established by C18"),
+    "C20": ("differential monitor: eager vs torch.compile (aot_eager quick, inductor thorough) on outputs and gradients with Dynamo capture counters as a vacuity guard; fx.symbolic_trace forward values; the library's leaf-wrapping tracer for gradients",
+            "4/C20", "Held on the 16 functions and random 2-6 step compositions x 3 dtypes; Inductor only in the thorough tier.", "eager execution is the reference; PyTorch's bfloat16 conv1d backward excluded (PyTorch itself is not reproducible there)"),
 })
 
 PENDING = {}
